@@ -5,7 +5,7 @@ from . import stoglib as SL
 
 ID = "C11"
 CHECKER = "chk_add"
-THEOREMS = ['C11_ingest_rows_spec', 'C11_add_dataset_appends', 'C11_history_independent', 'C11_masters_untouched', 'C11_sq_row_is_conversion', 'C11_sq_rows_pointwise', 'C11_sq_row_formula', 'C11_nothing_outside_global_window', 'C11_stored_q_on_grid', 'C11_nothing_inside_both_windows_lost', 'C11_arrays_aligned', 'C11g_add_dataset_appends', 'C11g_history_independent', 'C11g_masters_untouched', 'C11g_sq_row_is_conversion', 'C11g_history_independent_binary64', 'C11e_reject_keeps_arrays', 'C11e_rejected_entries_leave_no_rows', 'C11e_rejected_entries_keep_masters', 'C11e_aligned_with_rejected_entries', 'C11k_keyword_call_is_effective_description', 'C11k_no_keywords', 'C11k_description_entry_wins', 'C11k_keyword_fills_missing_entry', 'C11k_keywords_alone', 'C11k_original_agrees_with_block', 'C11k_original_drops_keywords_refuted']
+THEOREMS = ['C11_ingest_rows_spec', 'C11_add_dataset_appends', 'C11_history_independent', 'C11_masters_untouched', 'C11_sq_row_is_conversion', 'C11_sq_rows_pointwise', 'C11_sq_row_formula', 'C11_nothing_outside_global_window', 'C11_stored_q_on_grid', 'C11_nothing_inside_both_windows_lost', 'C11_arrays_aligned', 'C11g_add_dataset_appends', 'C11g_history_independent', 'C11g_masters_untouched', 'C11g_sq_row_is_conversion', 'C11g_history_independent_binary64', 'C11e_reject_keeps_arrays', 'C11e_rejected_entries_leave_no_rows', 'C11e_rejected_entries_keep_masters', 'C11e_aligned_with_rejected_entries', 'C11k_keyword_call_is_effective_description', 'C11k_no_keywords', 'C11k_description_entry_wins', 'C11k_keyword_fills_missing_entry', 'C11k_keywords_alone', 'C11k_original_agrees_with_block', 'C11k_original_drops_keywords_refuted', 'C11r_three_columns', 'C11r_two_columns', 'C11r_named_columns', 'C11r_no_uncertainty_column', 'C11r_too_few_columns_rejected', 'C11r_layout_dy_junk_x_y', 'C11r_layout_junk_y_x', 'C11r_read_dataset_is_add_dataset', 'C11r_forwarded_keywords', 'C11r_two_columns_is_no_uncertainty']
 RULE = ("sequences of 1-5 datasets of all four kinds with per-dataset Qmin/Qmax (on / off data points, outside the data), Y scale / offset, "
         "Q offsets (multiples of 0.01 and not), abscissae exact / jittered / half-way between 0.01 steps / unsorted, global Qmin/Qmax windows; "
         "every add_dataset step is one correspondence case from the implementation's own pre-state; non-trivial = the dataset stores at "
